@@ -116,7 +116,7 @@ func harness_C12_queue_close() {
 	dontRecover = false // production behaviour: the dispatch goroutine recovers panics and marks the entry broken
 	scriptNoVariants, scriptClasses, scriptMsgSym = true, 3, 0
 	dir := qDir()
-	tgt := &scriptTarget{name: "tgt", partial: true}
+	tgt := &scriptTarget{name: "tgt", partial: true, faultFree: verifParam("msgs", 1) >= 2}
 	q := &Queue{name: "q", location: dir, hostname: "mx.example.org", autogenMsgDomain: "example.org",
 		initialRetryTime: 1, retryTimeScale: 1.25, maxTries: 3, Target: tgt}
 	if err := q.start(1); err != nil {
@@ -136,9 +136,34 @@ func harness_C12_queue_close() {
 	if err := d.Commit(nil); err != nil {
 		verifStop()
 	}
-	// the wheel dispatches the entry (time zero = immediately), the attempt runs
-	// in its own goroutine; shut down concurrently
+	if verifParam("msgs", 1) >= 2 {
+		// a second message: with max_parallelism 1 its attempt waits for the first one
+		mm2 := &module.MsgMetadata{ID: "msg2", OriginalFrom: "sender@example.net"}
+		d2, err := q.Start(nil, mm2, "sender@example.net")
+		if err != nil {
+			verifStop()
+		}
+		d2.AddRcpt(nil, "b@example.org", smtpRcptOptions{})
+		if err := d2.Body(nil, hdr, buffer.MemoryBuffer{Slice: []byte("body\r\n")}); err != nil {
+			verifStop()
+		}
+		if err := d2.Commit(nil); err != nil {
+			verifStop()
+		}
+	}
+	// the wheel dispatches the entries (time zero = immediately), the attempts run
+	// in their own goroutines; shut down concurrently
 	q.Close()
+	// once Close has returned nothing of the queue is running any more
+	attemptsAtClose, openAtClose := len(tgt.deliveries), tgt.openDeliveries()
+	verifQuiesce()
+	if openAtClose != 0 {
+		verifFail("C12.attempt-still-running-after-shutdown")
+	}
+	if len(tgt.deliveries) != attemptsAtClose {
+		verifLog("attempts when Close returned", attemptsAtClose, "later", len(tgt.deliveries))
+		verifFail("C12.attempt-started-after-shutdown")
+	}
 
 	if verifPanics() > 0 {
 		verifFail("C12.goroutine-panicked-during-shutdown")
